@@ -3,6 +3,7 @@ CONSTANTS
   Regs = {1, 2}
   OutSels = {0, 1}
   OutSelsRen = {0, 1}
+  OutSelsDose = {}
   ReAdmin = "keep"
   Design = "repaired"
   MaxOps = 40
